@@ -35,6 +35,75 @@ def canon_status(s):
   return 'NotFound' if s in ('ScopeCollectionNotFound', 'ScopeParamNotFoundError', 'ScopeVariableNotFoundError') else s
 
 
+def jit_attribute_checks(chk):
+  """Static configuration of a lifted class: instances that differ in one dataclass attribute, called one after the other
+  (v1, v2, v1), compute what the plain class computes - a trace must never be reused for another configuration."""
+  import functools
+  import jax
+  import jax.numpy as jnp
+  import flax.linen as nn
+
+  def scale(x, k=1.0, *, s=1.0):
+    return x * k * s
+
+  def double(x):
+    return x * 2
+
+  def triple(x):
+    return x * 3
+
+  class Inner(nn.Module):
+    attr: object = None
+
+    @nn.compact
+    def __call__(self, x):
+      w = self.param('w', lambda k: jnp.ones(()))
+      a = self.attr
+      if callable(a):
+        return a(x) * w
+      if isinstance(a, (bool, int, float)):
+        return x * a * w
+      if isinstance(a, str):
+        return x * len(a) * w
+      if isinstance(a, (tuple, list)):
+        return x * sum(jax.tree_util.tree_leaves(a)) * w
+      if isinstance(a, dict):
+        return x * sum(v * (i + 1) for i, v in enumerate(a.values())) * w
+      return x * w
+  pairs = {
+    'int': (1, 2), 'int-negative': (-1, -2), 'float': (0.5, 0.25), 'float-negative': (-1.0, -2.0),
+    'str': ('ab', 'abc'), 'tuple': ((1, 2), (1, 3)), 'tuple-negative': ((1, -1), (1, -2)), 'nested-tuple': ((1, (2, 3)), (1, (2, 4))),
+    'dict': ({'a': 1}, {'a': 2}), 'dict-order': ({'a': 1, 'b': 2}, {'b': 2, 'a': 1}), 'dict-negative': ({'a': -1}, {'a': -2}),
+    'partial-keyword': (functools.partial(scale, s=2.0), functools.partial(scale, s=3.0)),
+    'partial-positional': (functools.partial(scale, 2.0), functools.partial(scale, 3.0)),
+    'function': (double, triple), 'none-vs-zero': (None, 0), 'bool': (True, False),
+  }
+  x = jnp.asarray(1.5)
+  for lname, lift in (('jit', nn.jit), ('remat', nn.remat)):
+    J = lift(Inner)
+    for name, (v1, v2) in pairs.items():
+      seq = (v1, v2, v1)
+
+      class Outer(nn.Module):
+        cls: object
+
+        @nn.compact
+        def __call__(self, x):
+          return [self.cls(attr=v, name=f'c{i}')(x) for i, v in enumerate(seq)]
+      key = f'C05:static-attribute:{lname}:{name}'
+      chk.count(key)
+      try:
+        variables = Outer(Inner).init(jax.random.key(0), x)
+        want = [float(y) for y in Outer(Inner).apply(variables, x)]
+        got = [float(y) for y in Outer(J).apply(variables, x)]
+      except Exception as e:
+        chk.violation(key, f'raised {type(e).__name__}: {str(e)[:200]}', {})
+        continue
+      if got != want:
+        chk.violation(key, f'nn.{lname}(Cls) instances with attribute values {seq!r}, called in that order, return {got}; the plain class {want} '
+                           '(a trace made for one configuration was reused for another)', {})
+
+
 def main(chk):
   import jax
   import dsl_linen as dsl
@@ -42,8 +111,8 @@ def main(chk):
   import linen_common as lc
   from flax.core import freeze
 
-  def run(body, phase, variables, streams, mutable, wrap='none'):
-    m = dr.Root(body=body, wrap=wrap)
+  def run(body, phase, variables, streams, mutable, wrap='none', sel=0):
+    m = dr.Root(body=body, wrap=wrap, sel=sel)
     try:
       if phase == 'init':
         out, ret = m.init_with_output(lc.rngs_for(streams))
@@ -213,7 +282,7 @@ def main(chk):
         created = r2['ret'] is not None and set(dsl.flatten_vars(r2['ret'])) - set(dsl.flatten_vars(variables))
         if not created and cfg['edit'] == 'none' and not any(op['k'] in ('S', 'T', 'K') for op in prog):  # (rng counters advance while every branch is traced: draws inside branches are not compared)
           for wrap in ('cond', 'switch'):
-            w = run(body, 'apply', variables, cfg['streams'], mutable, wrap=wrap)
+            w = run(body, 'apply', variables, cfg['streams'], mutable, wrap=wrap, sel=idx + nwrap)
             nwrap += 1
             if w['status'] != r2['status'] or w['acc'] != r2['acc'] or any(not np.array_equal(a, b) for a, b in zip(w['obs'], r2['obs'])) \
                or tree_vals(w['ret']) != tree_vals(r2['ret']):
@@ -234,6 +303,7 @@ def main(chk):
   chk.cov['cond_switch_wraps'] = nwrap
   chk.assumptions.append('remat policies are treated as inert; '
                          'observations inside lifted regions are returned as arrays (no side-effect logging)')
+  jit_attribute_checks(chk)
   import linen_setup_check
   linen_setup_check.run(chk, 'C05')
   chk.finish(rule=(linen_setup_check.RULE + '; LinenScope programs whose child classes are wrapped in nn.jit / nn.remat / identity nn.map_variables (tlc -simulate, <= 8 ops), '
